@@ -124,6 +124,25 @@ T = {
     "C12c": ("C12", "incremental_sds_plus loads only facts whose predicate occurs in some rule body into the reasoner and passes the others through",
              "an alive fact with a head-only predicate that is re-derived later with a shorter expiry",
              "C12-R9 (every alive fact is known to the reasoner)", "missed by C12-R1..R8; C12-R9 added"),
+    "C13c": ("C13", "the N-Triples / N-Quads tokenizer's language-tag loop accepts ASCII letters and '-' only (digits no longer)",
+             "a language tag with a digit in a subtag (`@es-419`)", "C13-R6 (the language-tag class is the grammar's)", "missed by C13-R1..R5; C13-R6 added"),
+    "C14c": ("C14", "generate_ntriples and generate_turtle write blank-node subjects and objects bare (`_:b1`), as generate_nquads does",
+             "a blank node whose label contains a dot, exported with generate_turtle and re-imported with parse_turtle",
+             "C14-R7 (the Turtle writer delimits what the Turtle tokenizer would split)", "missed by C14-R1..R6; C14-R7 added"),
+    "C15c": ("C15", "Dictionary::encode split into lookup(&self) and insert_new(&mut self); encode_term_star looks up under the read lock and inserts under the "
+                    "write lock without checking again",
+             "two threads encoding the same previously unseen term through databases that share one dictionary", "C15-R1 (writer set of the dictionary fields)", None),
+    "C16c": ("C16", "the filter expression parsers advance their cursor with sparql_skip_ws before testing for an operator, so the remainder they return has "
+                    "already skipped blanks and comments; sparql_filter_comparison slices operand text up to that remainder",
+             "a `#` comment directly after an operand of a FILTER comparison", "C16-R6 (measured recognisers stop where their token stops)",
+             "missed by C16-R1..R5; C16-R6 added"),
+    "C17c": ("C17", "build_dataset_view calls create_graph for every FROM NAMED <iri>", "a SELECT with FROM NAMED naming a graph the store does not have",
+             "C17-R1 (a dataset mutator is reachable from the query-only entry point)", None),
+    "C18c": ("C18", "every call of the chaining helper starts its own fresh-name counter at 0 instead of threading one counter through the search",
+             "a rule with a body-only variable introduced in a later premise, an earlier premise derived through a nested (recursive) rule application",
+             "C18-R7 (one fresh-name counter for the whole search)", "missed by C18-R1..R6; C18-R7 added"),
+    "C19c": ("C19", "compute_repairs searches only the facts that hit a constraint in a predicate-only RuleIndex lookup and adds the rest to every repair",
+             "a constraint with a variable in predicate position", "C19-R8 (the repair search ranges over all facts)", "missed by C19-R1..R7; C19-R8 added"),
     "C16b": ("C16", "sparql_aggregate returns the slice matched by the case-insensitive keyword helper instead of the canonical literal",
              "an aggregate keyword not written in upper case", "C16-R4 (keyword text never reaches the tree)",
              "missed by C16-R1..R3 (C01-R1 fired only through a floor, for the wrong reason); C16-R4 added, C01-R1 reads constant tables"),
